@@ -206,6 +206,15 @@ Fixpoint decode_nodes (l : list json) : res (list pnode) :=
   | j :: t => bind (decode_node j) (fun p => bind (decode_nodes t) (fun r => Ok (p :: r)))
   end.
 
+(* `_postprocess_nodes` is absent (cls() has set the default) or the tag of the default function *)
+Definition postproc_ok (o : option json) : bool :=
+  match o with
+  | None => true
+  | Some (JObj [(k, JStr p)]) =>
+      (k =? CP) && match resolve p with Some CPostproc => true | _ => false end
+  | Some _ => false
+  end.
+
 (* graph_from_json for LinkedGraph: nodes_key = 'nodes' if 'nodes' in json_obj else '_nodes';
    json_obj[nodes_key] raises KeyError when absent.  `_postprocess_nodes` must be the default. *)
 Definition decode_linked (j : json) : res (list pnode) :=
@@ -213,15 +222,13 @@ Definition decode_linked (j : json) : res (list pnode) :=
   | JObj kv =>
       match class_of kv with
       | Some CLinked =>
-          match lookup "_postprocess_nodes" kv with
-          | None | Some (JObj [("_class_path", JStr "golem.core.dag.linked_graph/LinkedGraph._empty_postprocess")]) =>
-              match lookup (if has_key "nodes" kv then "nodes" else "_nodes") kv with
-              | None => Raise KeyError
-              | Some (JArr l) => decode_nodes l
-              | Some _ => Raise Unmodelled
-              end
-          | Some _ => Raise Unmodelled
-          end
+          if postproc_ok (lookup "_postprocess_nodes" kv) then
+            match lookup (if has_key "nodes" kv then "nodes" else "_nodes") kv with
+            | None => Raise KeyError
+            | Some (JArr l) => decode_nodes l
+            | Some _ => Raise Unmodelled
+            end
+          else Raise Unmodelled
       | _ => Raise Unmodelled
       end
   | _ => Raise Unmodelled
